@@ -53,6 +53,7 @@ class SymNP(types.ModuleType):
         if isinstance(x, (SInt, SScal)):
             s = SScal.lift(x)
             r = SScal(alg.rsqrt(s.re))
+            r.dimn = getattr(s, "dimn", False)
             CTX.assume(z3.And(r.re >= 0, r.re * r.re == s.re))
             return r
         return np.sqrt(x)
@@ -156,7 +157,15 @@ def installed(contracts, keep_real=()):
     from contracts.plain import PLAIN
     for (mname, attr), fn in PLAIN.items():
         mod = sys.modules.get(mname)
-        if mod is not None and hasattr(mod, attr):
+        if mod is None:
+            continue
+        if "." in attr:
+            cname, meth = attr.split(".", 1)
+            cls = getattr(mod, cname, None)
+            if cls is not None and meth in cls.__dict__:
+                saved.append((cls, meth, cls.__dict__[meth], True))
+                setattr(cls, meth, fn)
+        elif hasattr(mod, attr):
             saved.append((mod, attr, getattr(mod, attr), True))
             setattr(mod, attr, fn)
     old_call = ann.WrapMeta.__call__
